@@ -126,7 +126,7 @@ def gen_cases(rng, n_a, n_b, n_dev, tag):
             init = rng.choice(["fill", "part"])         # a ROM without contents / initZero ROM: see known findings
         # avoid the recorded known findings in generated designs (each has its corpus case)
         rmw = [p for p in ports if ":r" in p]
-        if nc and len(rmw) >= 2:
+        if nc and rmw and nw >= 2 and lat != 0:
             nc = 0
         if nr >= 2 and rmw and lat in (3, -1):
             lat = 2
@@ -551,9 +551,9 @@ def main():
 
     # ---------------- generated cases
     if tiername == "quick":
-        nshards, n_a, n_b, n_dev = 8, 150, 110, 40
+        nshards, n_a, n_b, n_dev = 8, 320, 220, 90
     else:
-        nshards, n_a, n_b, n_dev = 16, 1500, 1000, 700
+        nshards, n_a, n_b, n_dev = 16, 4000, 3000, 2000
     shards = []
     for i in range(nshards):
         rng = random.Random(seed * 7919 + i * 104729 + (1 if tiername == "quick" else 2))
